@@ -218,6 +218,11 @@ def _locks_free(locks):
     import os
     import queue
 
+    # fast path: CPython's RLock repr states "unlocked ... count=0" when nobody holds it (no thread hand-off needed);
+    # anything else is confirmed by the real cross-thread probe below
+    reps = [repr(l) for l in locks]
+    if all(("unlocked" in r and "count=0" in r) for r in reps):
+        return [True for _ in locks]
     st = _PROBE.get(os.getpid())
     if st is None:
         req, rep = queue.SimpleQueue(), queue.SimpleQueue()
